@@ -40,12 +40,27 @@ def int_encode(code):
     sx.prove(back == v, "decode(encode(v)) == v", "C04/roundtrip/%s" % name)
 
 
-def int_decode(code):
-    """(b): arbitrary w/8 bytes decode to the spec value and re-encode to themselves."""
+def int_decode(code, container="bytes"):
+    """(b): arbitrary w/8 bytes decode to the spec value and re-encode to themselves.  container='bytearray':
+    the pattern arrives in a mutable buffer (what a bus interface hands to callbacks): decoding must leave the
+    caller's buffer alone, so that decoding it again (a second subscriber) gives the same value."""
     name, w, signed = S301.INT_TYPES[code]
     var = _var(code)
     data = sx.fresh_bytes("d", w // 8)
-    val = var.decode_raw(data)
+    if container == "bytearray":
+        buf = sx.new_bytearray(sx.items(data))
+        val = var.decode_raw(buf)
+        sx.prove(len(buf) == w // 8 and sx.eq_bytes(sx.mkbytes(sx.items(buf)), data) is not False,
+                 "decoding changed the caller's buffer", "C04/decode/%s/input-mutated" % name)
+        try:
+            val2 = var.decode_raw(buf)
+            sx.prove(val2 == val, "decoding the same buffer twice", "C04/decode/%s/twice" % name)
+        except Exception as e:
+            sx.observe("exc", type(e).__name__)
+            sx.fail("decoding the same buffer a second time raised %s" % type(e).__name__,
+                    "C04/decode/%s/twice-raises" % name)
+    else:
+        val = var.decode_raw(data)
     sx.observe("val", val)
     sx.reach("decoded")
     sx.prove(val == sx.le_int(sx.items(data), signed), "decoded value", "C04/decode/%s/value" % name)
@@ -206,6 +221,7 @@ def jobs(tier):
     for code in S301.INT_TYPES:
         out.append(dict(func="int_encode", params=dict(code=code)))
         out.append(dict(func="int_decode", params=dict(code=code)))
+        out.append(dict(func="int_decode", params=dict(code=code, container="bytearray")))
     for code in list(S301.INT_TYPES) + [S301.BOOLEAN, S301.REAL32, S301.REAL64]:
         out.append(dict(func="bit_length", params=dict(code=code)))
         w = S301.width(code) // 8
